@@ -339,7 +339,10 @@ Definition run_c14_reader (args : list sx) : sx :=
 
 Definition un_wop (s : sx) : option wop :=
   match s with
-  | L [B data; n; f] => do n <- un_nat n; do f <- un_bool f; ret (WWrite data n f)
+  | L [B data; n; f] =>
+    do n <- un_nat n; do f <- un_bool f;
+    if (length data <? n)%nat then None        (* an io.Writer never reports more than it was given *)
+    else ret (WWrite data n f)
   | _ => None
   end.
 Definition sx_wres (r : wres) : sx :=
